@@ -88,3 +88,22 @@ example : ∃ (p : Params 2 1 ℝ) (v : Fin 2 → Fin 1 → ℝ≥0), (∀ c d, 
     ∧ (∀ c, 0 < p.weights c) ∧ ∑ c, p.weights c = 1 :=
   ⟨{ weights := fun _ => 1/2, means := fun c _ => c, variances := fun _ _ => 2 }, fun _ _ => 2,
     by intro c d; norm_num, by intro c d; norm_num, by intro c; norm_num, by norm_num [Fin.sum_univ_two]⟩
+
+/-- **tied components both count**: two different components always contribute both of their terms — in
+particular, when they are exactly tied at the maximum (a duplicated component, a sample on the
+symmetry plane of a mirror pair) the log-likelihood is at least the common term plus `log 2`; a
+log-sum-exp that counts "the maximum" once is not the mixture density -/
+theorem C01_tied_components_both_count (p : Params (C+1) D ℝ) (x : Fin D → ℝ) (c₁ c₂ : Fin (C+1)) (hne : c₁ ≠ c₂) :
+    Real.log (Real.exp (lwl p x c₁) + Real.exp (lwl p x c₂)) ≤ logLik p x ∧
+      (lwl p x c₁ = lwl p x c₂ → lwl p x c₁ + Real.log 2 ≤ logLik p x) := by
+  rw [logLik, logaddexpReduce_eq]
+  have hpair : Real.exp (lwl p x c₁) + Real.exp (lwl p x c₂) ≤ ∑ k, Real.exp (lwl p x k) := by
+    have := Finset.sum_le_sum_of_subset_of_nonneg (s := {c₁, c₂}) (t := Finset.univ) (f := fun k => Real.exp (lwl p x k))
+      (Finset.subset_univ _) (fun k _ _ => (Real.exp_pos _).le)
+    rwa [Finset.sum_pair hne] at this
+  have hpos : 0 < Real.exp (lwl p x c₁) + Real.exp (lwl p x c₂) := add_pos (Real.exp_pos _) (Real.exp_pos _)
+  refine ⟨Real.log_le_log hpos hpair, fun heq => ?_⟩
+  have h2 : lwl p x c₁ + Real.log 2 = Real.log (Real.exp (lwl p x c₁) + Real.exp (lwl p x c₂)) := by
+    rw [← heq, ← two_mul, Real.log_mul (by norm_num) (Real.exp_pos _).ne', Real.log_exp]; ring
+  rw [h2]
+  exact Real.log_le_log hpos hpair
